@@ -23,9 +23,10 @@ emu_ev(struct emu_ev *ev, const struct ovni_ev *oev,
 		ev->has_payload = 1;
 		ev->payload = &oev->payload;
 
-		if (oev->header.flags & OVNI_EV_JUMBO) {
+		if (oev->header.flags & OVNI_EV_JUMBO)
 			ev->is_jumbo = 1;
-		}
+		else
+			ev->is_jumbo = 0;
 	} else {
 		ev->has_payload = 0;
 		ev->payload = NULL;
